@@ -10,14 +10,14 @@ type weights map[string]int
 
 func baseWeights() weights {
 	return weights{"send": 18, "block": 28, "relay": 26, "dup": 5, "replay": 4, "corrupt": 5, "advance": 4, "drop": 1, "partition": 1,
-		"stall": 1, "skew": 1, "crash": 2, "adv": 2, "advmsg": 1, "gov": 2, "export": 1, "pump": 6, "batch": 2, "tss": 3}
+		"stall": 1, "skew": 1, "crash": 2, "adv": 2, "advmsg": 1, "gov": 2, "export": 1, "pump": 6, "batch": 2, "tss": 3, "xrestart": 1}
 }
 
 func focusWeights(focus string) weights {
 	w := baseWeights()
 	switch focus {
 	case "C01":
-		w["dup"], w["replay"], w["corrupt"], w["crash"] = 12, 10, 8, 3
+		w["dup"], w["replay"], w["corrupt"], w["crash"], w["xrestart"] = 12, 10, 8, 3, 3
 	case "C02":
 		w["corrupt"], w["dup"], w["replay"] = 16, 6, 6
 	case "C03":
@@ -27,9 +27,9 @@ func focusWeights(focus string) weights {
 	case "C05":
 		w["dup"], w["replay"], w["corrupt"], w["pump"] = 12, 10, 8, 10
 	case "C06":
-		w["adv"], w["advmsg"], w["gov"], w["corrupt"], w["tss"] = 14, 6, 8, 6, 14
+		w["adv"], w["advmsg"], w["gov"], w["corrupt"], w["tss"], w["xrestart"] = 14, 6, 8, 6, 14, 3
 	case "C13":
-		w["export"] = 6
+		w["export"], w["xrestart"] = 6, 4
 	case "C14":
 		w["crash"], w["gov"], w["pump"] = 6, 6, 10
 	}
@@ -65,7 +65,7 @@ func (Scenario) Generate(rng *rand.Rand, focus, tier string) kernel.Plan {
 	}
 	var keys []string
 	total := 0
-	for _, k := range []string{"send", "block", "relay", "dup", "replay", "corrupt", "advance", "drop", "partition", "stall", "skew", "crash", "adv", "advmsg", "gov", "export", "pump", "batch", "tss"} {
+	for _, k := range []string{"send", "block", "relay", "dup", "replay", "corrupt", "advance", "drop", "partition", "stall", "skew", "crash", "adv", "advmsg", "gov", "export", "pump", "batch", "tss", "xrestart"} {
 		keys = append(keys, k)
 		total += w[k]
 	}
@@ -115,6 +115,8 @@ func (Scenario) Generate(rng *rand.Rand, focus, tier string) kernel.Plan {
 		switch k {
 		case "send":
 			add("send", rng.Int63n(nc), rng.Int63n(4), invalidDst(), rng.Int63n(16), rng.Int63n(7), rng.Int63n(7), rng.Int63n(4)*rng.Int63n(2), rng.Int63n(6)+7*rng.Int63n(6))
+		case "xrestart":
+			add("xrestart", rng.Int63n(nc))
 		case "tss":
 			add("tss", rng.Int63n(nc), rng.Int63n(4), rng.Int63n(5), rng.Int63n(4), rng.Int63n(1<<16))
 		case "batch":
